@@ -107,9 +107,12 @@ def gen_struct_src(structs):
 def gen_kernels(st):
     n = st.name
     k = []
-    k.append("static_assert(sizeof(tainted<%s, S>) == sizeof(%s) && sizeof(%s) == %d, \"app layout oracle\");" % (n, n, n, st.asz))
+    # application-side layout of the tainted struct (a run-time kernel rather than a static_assert, so that a wrong layout is
+    # reported as a violation instead of a TU that does not compile)
+    k.append("K uint64_t k_appsize_%s() { env_log(60, sizeof(%s), alignof(tainted<%s, S>), alignof(%s)); return sizeof(tainted<%s, S>); }" % (n, n, n, n, n))
     for (nm, f), ao in zip(st.fields, st.aoff):
-        k.append("static_assert(offsetof(%s, %s) == %d, \"app offset oracle\");" % (n, nm, ao))
+        k.append("K uint64_t k_appoff_%s_%s() { tainted<%s, S> v; env_log(61, offsetof(%s, %s), sizeof(v.%s), sizeof(%s::%s)); "
+                 "return (uint64_t)((const char*)&v.%s - (const char*)&v); }" % (n, nm, n, n, nm, nm, n, nm, nm))
     k.append("K uint64_t k_sizeof_%s() { return sizeof(tainted_volatile<%s, S>); }" % (n, n))
     for nm, f in st.fields:
         k.append("K uint64_t k_off_%s_%s(uint64_t base, uint64_t p) { S::g_base = base; auto t = mk_tainted<%s*, S>(p); "
@@ -217,6 +220,15 @@ def footprints(f, off):
 
 # ------------------------------------------------------------------ checks
 def check_layout(ctx, st):
+    for q in ctx.run("k_appsize_" + st.name, []):
+        lg = [e for e in q.user["log"] if e[0] == 60][0]
+        ctx.require(q, z3.And(q.ret == st.asz, z3.BoolVal(lg[1] == st.asz and lg[2] == lg[3])),
+                    "the tainted struct in application memory has the size and alignment of the plain struct (%d)" % st.asz)
+    for (nm, f), ao in zip(st.fields, st.aoff):
+        for q in ctx.run("k_appoff_%s_%s" % (st.name, nm), []):
+            lg = [e for e in q.user["log"] if e[0] == 61][0]
+            ctx.require(q, z3.And(q.ret == ao, z3.BoolVal(lg[1] == ao and lg[2] == lg[3])),
+                        "field %s of the tainted struct is at the plain struct's offset %d with the plain field's size" % (nm, ao))
     paths = ctx.run("k_sizeof_" + st.name, [])
     for q in paths:
         ctx.require(q, q.ret == st.gsz, "sizeof the sandbox image equals the LP32 size %d" % st.gsz)
